@@ -292,6 +292,18 @@ def run(ctx):
     wiring.flatten_order(ctx, "C03.f", m, "flattening:C-order")
     okn, whyn = _nd_mask(fnn)
     ctx.check(okn, "C03.f", "HistogramND.fill_n:mask", whyn, whyn, fnn.where)
+    okg, whyg = _nd_weight_filter_guard(fnn)
+    ctx.check(okg, "C03.f", "HistogramND.fill_n:weight-filter-guard", whyg, whyg, fnn.where)
+    # the rows are filtered exactly when dropna is on, before the kernel sees them
+    pol = {}
+    for p_ in function_paths(fnn.node, loops=0):
+        cs_ = dict((U(s_[1]), s_[2]) for s_ in p_ if s_[0] == "cond")
+        if "dropna" in cs_ and end_kind(p_) != "raise":
+            filt = any(s_[0] == "stmt" and isinstance(s_[1], ast.Assign) and isinstance(s_[1].value, ast.Subscript)
+                       and U(s_[1].targets[0]) == U(s_[1].value.value) == "values_array" for s_ in p_)
+            pol.setdefault(cs_["dropna"], set()).add(filt)
+    ctx.check(pol.get(True) == {True} and pol.get(False) == {False}, "C03.f", "HistogramND.fill_n:dropna-polarity",
+              "rows with NaN are removed iff dropna", f"rows filtered per dropna decision: {pol}", fnn.where)
 
     wiring.params_used(ctx, "C03.f", [m.cls(c_).methods[x] for c_ in ("Histogram1D", "HistogramND") for x in ("fill", "fill_n", "find_bin")],
                        "fill-family:options-read")
@@ -360,6 +372,61 @@ def _nd_mask(fi):
                    "mask on some path (kernel then sees arrays of different length)")
 
 
+def _nd_weight_filter_guard(fi):
+    """The guard under which ND fill_n filters the weights with the rows' NaN mask, as a boolean function of
+    A = `weights is not None` and B = `weights.shape == <mask>.shape`: it must be true for (A, B) = (True, True), false for
+    A = False without touching `weights.shape` (short-circuit order), and false for (True, False) (wrongly shaped weights
+    are left to the kernel's refusal)."""
+    params = [p for p in fi.params() if p != "self"]
+    w = params[1] if len(params) > 1 else "weights"
+    guards = []
+    for n in ast.walk(fi.node):
+        if isinstance(n, ast.If) and any(isinstance(b, ast.Assign) and U(b.targets[0]) == w and isinstance(b.value, ast.Subscript)
+                                         and U(b.value.value) == w for b in n.body):
+            guards.append(n.test)
+    if len(guards) != 1:
+        return False, f"{len(guards)} guarded `weights = weights[mask]` statements found"
+
+    class Poison(Exception):
+        pass
+
+    def ev(x, a, b):
+        if isinstance(x, ast.BoolOp):
+            if isinstance(x.op, ast.And):
+                for v in x.values:
+                    if not ev(v, a, b):
+                        return False
+                return True
+            for v in x.values:
+                if ev(v, a, b):
+                    return True
+            return False
+        if isinstance(x, ast.UnaryOp) and isinstance(x.op, ast.Not):
+            return not ev(x.operand, a, b)
+        t = U(x)
+        if t == f"{w} is not None":
+            return a
+        if t == f"{w} is None":
+            return not a
+        if isinstance(x, ast.Compare) and len(x.ops) == 1 and f"{w}.shape" in t and ".shape" in t.replace(f"{w}.shape", "", 1):
+            if not a:
+                raise Poison()
+            return b if isinstance(x.ops[0], ast.Eq) else (not b if isinstance(x.ops[0], ast.NotEq) else None)
+        raise ValueError(t)
+    try:
+        table = {}
+        for a, b in ((True, True), (True, False), (False, False)):
+            try:
+                table[(a, b)] = ev(guards[0], a, b)
+            except Poison:
+                table[(a, b)] = "reads weights.shape although weights is None"
+    except ValueError as exc:
+        return False, f"guard `{U(guards[0])}` contains a condition the rule does not know: {exc}"
+    ok = table == {(True, True): True, (True, False): False, (False, False): False}
+    return ok, (f"weights are filtered under `{U(guards[0])}`: true iff weights are given and have one entry per row" if ok else
+                f"weights are filtered under `{U(guards[0])}`, which evaluates to {table} for (weights given, shapes equal)")
+
+
 def _accumulation(ctx, m, cls, fi, kernel, roles, binning_arg, binning_expr):
     """Aggregated over all paths of fill_n that reach the kernel call."""
     found_call = False
@@ -401,6 +468,14 @@ def _accumulation(ctx, m, cls, fi, kernel, roles, binning_arg, binning_expr):
         note(f"{cls}.fill_n:kernel-binning", b is not None and U(b) in binning_expr,
              f"{kernel} called with the histogram's own binning {U(b) if b is not None else None}",
              f"{kernel} is called with `{U(b) if b is not None else None}`, not the histogram's binning")
+        wk = kwarg(call, "weights")
+        wsrc = U(env.expand(wk, keep={"weights"})) if wk is not None else None
+        note(f"{cls}.fill_n:kernel-weights", wk is not None and wsrc is not None and "weights" in wsrc,
+             f"the kernel receives the batch's weights (`{U(wk) if wk is not None else None}`)",
+             f"{kernel} is called with weights={U(wk) if wk is not None else 'nothing'}: the weights of the batch do not reach the kernel")
+        srt = kwarg(call, "already_sorted")
+        note(f"{cls}.fill_n:kernel-sorts", srt is None or (isinstance(srt, ast.Constant) and srt.value is False),
+             "the kernel sorts the batch itself", f"{kernel} is told already_sorted={U(srt) if srt is not None else None} for arbitrary batches")
         km_false = any(s[0] == "cond" and U(s[1]) == "self.keep_missed" and not s[2] for s in p)
         for idx, (attr, role) in roles.items():
             key = f"{cls}.fill_n:accumulate-{role}"
